@@ -82,19 +82,13 @@ end secondquant
 
 section kpm
 open Kpm
-/-- **C16** KPM: with `max_moments ≥ 10` the call returns a solution; without warning its residue is within `atol`, with the warning it is
-not; `fuel` iterations suffice as soon as `max_moments < 10·4^fuel` (termination) -/
-theorem C16_kpm_accuracy_or_warning (resid : Nat → Rat) (atol : Rat) (maxM fuel : Nat) (h10 : 10 ≤ maxM) (hfuel : maxM < 10 * 4 ^ fuel) :
-    ∃ k, (greens resid atol maxM fuel).moments = some k ∧
-      ((greens resid atol maxM fuel).warned = false → resid k ≤ atol) ∧
-      ((greens resid atol maxM fuel).warned = true → resid k > atol) :=
-  greens_spec resid atol maxM fuel h10 hfuel
-
-/-- recorded behaviour outside that range: with `max_moments < 10` no solution is ever computed (the Python function raises
-`UnboundLocalError`) -/
-theorem C16_kpm_unbound (resid : Nat → Rat) (atol : Rat) (maxM fuel : Nat) (h : maxM < 10) :
-    greens resid atol maxM fuel = ⟨none, true⟩ :=
-  greens_unbound resid atol maxM fuel h
+/-- **C16** KPM: for every `max_moments ≥ 1` the call returns a solution; without warning its residue is within `atol`, with the warning it is
+not; the loop terminates (`max_moments` iterations always suffice) -/
+theorem C16_kpm_accuracy_or_warning (resid : Nat → Rat) (atol : Rat) (maxM : Nat) (h1 : 1 ≤ maxM) :
+    ∃ k, (greens resid atol maxM maxM).moments = some k ∧
+      ((greens resid atol maxM maxM).warned = false → resid k ≤ atol) ∧
+      ((greens resid atol maxM maxM).warned = true → resid k > atol) :=
+  greens_spec resid atol maxM maxM (greens_fuel maxM h1)
 
 example : greens (fun m => 1 / (m : Rat)) (1 / 100) 1000 5 = ⟨some 160, false⟩ := by decide +kernel
 end kpm
